@@ -65,7 +65,7 @@ class Result:
             try:
                 json.dumps(obj)
                 self.samples.append(obj)
-            except TypeError:
+            except (TypeError, ValueError):
                 self.samples.append(repr(obj)[:400])
 
     def merge(self, other: "Result") -> None:
